@@ -413,7 +413,7 @@ func (self Node) Index(idx int) (v Node) {
 	}
 
 	// when lazy load, size = 0, use it.k which is counted after it.Next() to check valid idx
-	if idx > it.k {
+	if idx > it.k || !it.HasNext() {
 		return errNode(meta.ErrInvalidParam, fmt.Sprintf("index '%d' is out of range", idx), nil)
 	}
 
